@@ -290,6 +290,7 @@ pub fn run(ctx: &mut Ctx) {
     let corpus = if miri { vec![vec![0x02u8, 0, 0, 0, 0, 1], vec![0u8; 40]] } else { crate::corpus::harvest() };
     let n = scale(12_000, 150_000, 40);
     ctx.phase("bytes", n, |ctx, k| {
+        let mut marks: Vec<crate::refmodel::ser::Mark> = Vec::new();
         let (mut b, origin): (Vec<u8>, &str) = match k % 5 {
             0 => {
                 let l = *gen::pick(&mut ctx.rng, &[0usize, 1, 2, 5, 9, 33, 34, 65, 100, 300]);
@@ -298,7 +299,9 @@ pub fn run(ctx: &mut Ctx) {
             1 => (corpus[ctx.rng.gen_range(0..corpus.len())].clone(), "corpus"),
             2 | 3 => {
                 if ffi_ok(ctx) {
-                    (super::c01::gen_encoded(&mut ctx.rng, k / 5, false).1, "generated")
+                    let (_, enc, m) = super::c01::gen_encoded(&mut ctx.rng, k / 5, false);
+                    marks = m;
+                    (enc, "generated")
                 } else {
                     (gen::bytes(&mut ctx.rng, 40), "random")
                 }
@@ -313,7 +316,13 @@ pub fn run(ctx: &mut Ctx) {
         };
         let rounds = if sanitizer { 2 } else { 4 };
         for round in 0..rounds {
-            if round > 0 {
+            if round == 1 && !marks.is_empty() {
+                // structure-aware: length fields set to boundary / huge values, flags, prefixes
+                if let Some((m, label)) = mutate::structured(&mut ctx.rng, &b, &marks) {
+                    b = m;
+                    ctx.count(&format!("mutator/{}", label));
+                }
+            } else if round > 0 {
                 let label = mutate::generic(&mut ctx.rng, &mut b);
                 ctx.count(&format!("mutator/{}", label));
             }
@@ -329,6 +338,32 @@ pub fn run(ctx: &mut Ctx) {
             ctx.sample(&format!("bytes-{}", origin), json!({"origin": origin, "bytes": hex_short(&b)}));
         }
     });
+
+    // ---- length / count fields set to values between MAX_VEC_SIZE/size_of::<T>() and MAX_VEC_SIZE
+    // with no payload behind them: the decoder must fail without reserving memory for them
+    if ffi_ok(ctx) {
+        let n = scale(3_000, 60_000, 6);
+        ctx.phase("count-fields", n, |ctx, k| {
+            let (name, enc, marks) = super::c01::gen_encoded(&mut ctx.rng, k, false);
+            let cs_marks: Vec<&crate::refmodel::ser::Mark> = marks.iter().filter(|m| m.kind == crate::refmodel::ser::Kind::Cs).collect();
+            if cs_marks.is_empty() {
+                return;
+            }
+            for _ in 0..4 {
+                let m = cs_marks[ctx.rng.gen_range(0..cs_marks.len())];
+                let v: u64 = *gen::pick(&mut ctx.rng, &[10_000u64, 100_000, 166_667, 1_000_000, 3_999_999, 4_000_000, 4_000_001, 0x00ff_ffff, 0xffff_ffff, 1 << 40, u64::MAX]);
+                let Some((_, w)) = mutate::read_cs(&enc[m.off..]) else { continue };
+                let mut b = enc[..m.off].to_vec();
+                b.extend(crate::refmodel::merkle::cs(v));
+                if ctx.rng.gen_range(0..2) == 0 {
+                    b.extend_from_slice(&enc[m.off + w..]);
+                }
+                let d = || json!({"type": name, "count_value": v, "bytes": hex_short(&b)});
+                decoders(ctx, &b, &d);
+                ctx.shape(("count", name, v.min(5_000_000)));
+            }
+        });
+    }
 
     // ---- PSET value-level mutations: truncate / extend / empty the value of any pair
     if ffi_ok(ctx) {
@@ -430,6 +465,7 @@ pub fn run(ctx: &mut Ctx) {
 
     // ---- exhaustive tiny scripts: every script of length <= 2 and every (opcode, 0..3 trailing bytes) truncation
     if !sanitizer {
+        ctx.seen("exhaustive_subspaces", "C10: Script::{instructions,instructions_minimal,asm} on all 65 792 scripts of length <= 2; every other script API on all scripts of length <= 1");
         ctx.phase("tiny-scripts", 257, |ctx, k| {
             let d0 = || json!({"first": k});
             if k == 256 {
@@ -569,6 +605,17 @@ pub fn run(ctx: &mut Ctx) {
                         tx.output.clear();
                         "no-outputs"
                     }
+                };
+                // independently: a fee output that carries a public key in its nonce
+                let what = if k % 3 == 1 {
+                    let asset = gen::asset_id(&mut ctx.rng);
+                    let mut fee = TxOut::new_fee(ctx.rng.gen_range(1..1000), asset);
+                    fee.nonce = elements::confidential::Nonce::Confidential(gen::public_key(&mut ctx.rng));
+                    let pos = ctx.rng.gen_range(0..=tx.output.len());
+                    tx.output.insert(pos, fee);
+                    if what == "no-outputs" { "only-a-fee-output-with-key" } else { "fee-output-with-key" }
+                } else {
+                    what
                 };
                 let seed: u64 = ctx.rng.gen();
                 let blind_iss = k % 16 >= 8;
@@ -712,6 +759,139 @@ pub fn run(ctx: &mut Ctx) {
                 call(ctx, "serde_json::from_str::<Value>[short-commitment]", s.len(), &d, || serde_json::from_str::<elements::confidential::Value>(&s).is_ok());
                 let s2 = format!("[2,\"{}\"]", crate::rt::hex(&vec![0x0au8; l]));
                 call(ctx, "serde_json::from_str::<Asset>[short-commitment]", s2.len(), &d, || serde_json::from_str::<elements::confidential::Asset>(&s2).is_ok());
+            }
+            // the same through a binary self-describing format (CBOR byte strings of any length)
+            for l in [0usize, 1, 16, 32, 33, 34, 65] {
+                for prefix in [0x08u8, 0x0a] {
+                    // array(2) [ 2, bytes(l) ]
+                    let mut c = vec![0x82, 0x02];
+                    if l < 24 {
+                        c.push(0x40 + l as u8);
+                    } else {
+                        c.push(0x58);
+                        c.push(l as u8);
+                    }
+                    c.extend(std::iter::repeat(prefix).take(l));
+                    let d = || json!({"cbor": hex_short(&c), "commitment_len": l});
+                    if prefix == 0x08 {
+                        call(ctx, "serde_cbor::from_slice::<Value>[commitment-length]", c.len(), &d, || serde_cbor::from_slice::<elements::confidential::Value>(&c).is_ok());
+                    } else {
+                        call(ctx, "serde_cbor::from_slice::<Asset>[commitment-length]", c.len(), &d, || serde_cbor::from_slice::<elements::confidential::Asset>(&c).is_ok());
+                    }
+                }
+            }
+            // ... with bytes following the short string inside the same buffer (an over-read then
+            // stays inside the allocation and shows only as a wrongly accepted value)
+            {
+                let vc = match gen::value_v(&mut ctx.rng, 2) {
+                    elements::confidential::Value::Confidential(c) => c.serialize(),
+                    _ => unreachable!(),
+                };
+                let ac = match gen::asset_v(&mut ctx.rng, 2) {
+                    elements::confidential::Asset::Confidential(c) => c.serialize(),
+                    _ => unreachable!(),
+                };
+                for (name, full) in [("Value", vc), ("Asset", ac)] {
+                    for l in [0usize, 1, 31, 32] {
+                        // array(2) [ [2, bytes(l)], [2, bytes(33)] ]
+                        let mut c = vec![0x82, 0x82, 0x02];
+                        if l < 24 {
+                            c.push(0x40 + l as u8);
+                        } else {
+                            c.push(0x58);
+                            c.push(l as u8);
+                        }
+                        c.extend_from_slice(&full[..l]);
+                        c.extend_from_slice(&[0x82, 0x02, 0x58, 0x21]);
+                        c.extend_from_slice(&full);
+                        let d = || json!({"cbor": hex_short(&c), "commitment_len": l, "type": name});
+                        let ok = if name == "Value" {
+                            call(ctx, "serde_cbor::from_slice::<Vec<Value>>[commitment-length]", c.len(), &d, || serde_cbor::from_slice::<Vec<elements::confidential::Value>>(&c).is_ok())
+                        } else {
+                            call(ctx, "serde_cbor::from_slice::<Vec<Asset>>[commitment-length]", c.len(), &d, || serde_cbor::from_slice::<Vec<elements::confidential::Asset>>(&c).is_ok())
+                        };
+                        if ok == Some(true) {
+                            ctx.violation(&format!("binary-serde-commitment-of-wrong-length-accepted/{}", name), d());
+                        } else {
+                            ctx.count("binary-serde-commitment-of-wrong-length-rejected");
+                        }
+                    }
+                }
+            }
+            // ... and for the commitment-typed fields of PSET maps (derived Deserialize)
+            if k % 4 == 0 {
+                let mut ps2 = gp::pset(&mut ctx.rng, P(1, 4), 0, 0);
+                let i0 = gp::input(&mut ctx.rng, P(1, 4));
+                ps2.add_input(i0);
+                let o0 = gp::output(&mut ctx.rng, P(1, 4));
+                ps2.add_output(o0);
+                let vc = match gen::value_v(&mut ctx.rng, 2) {
+                    elements::confidential::Value::Confidential(c) => c,
+                    _ => unreachable!(),
+                };
+                let ac = match gen::asset_v(&mut ctx.rng, 2) {
+                    elements::confidential::Asset::Confidential(c) => c,
+                    _ => unreachable!(),
+                };
+                let which = (k / 4) % 4;
+                let needle: Vec<u8> = match which {
+                    0 => {
+                        ps2.inputs_mut()[0].issuance_value_comm = Some(vc);
+                        vc.serialize().to_vec()
+                    }
+                    1 => {
+                        ps2.inputs_mut()[0].issuance_inflation_keys_comm = Some(vc);
+                        vc.serialize().to_vec()
+                    }
+                    2 => {
+                        ps2.outputs_mut()[0].amount_comm = Some(vc);
+                        vc.serialize().to_vec()
+                    }
+                    _ => {
+                        ps2.outputs_mut()[0].asset_comm = Some(ac);
+                        ac.serialize().to_vec()
+                    }
+                };
+                let field = ["input.issuance_value_comm", "input.issuance_inflation_keys_comm", "output.amount_comm", "output.asset_comm"][which as usize];
+                let enc = serde_cbor::to_vec(&ps2);
+                if let Err(e) = &enc {
+                    ctx.count(&format!("cbor-pset-not-serializable/{}", e.to_string().chars().take(60).collect::<String>()));
+                }
+                if let Ok(c0) = enc {
+                    // CBOR byte string header for 33 bytes is 58 21
+                    let mut pat = vec![0x58u8, 0x21];
+                    pat.extend_from_slice(&needle);
+                    match serde_cbor::from_slice::<Pset>(&c0) {
+                        Ok(_) => ctx.count("cbor-pset-unmodified-accepted"),
+                        Err(e) => ctx.count(&format!("cbor-pset-unmodified-rejected/{}", e.to_string().chars().take(80).collect::<String>())),
+                    }
+                    if let Some(pos) = c0.windows(pat.len()).position(|w| w == &pat[..]) {
+                        for l in [0usize, 1, 32] {
+                            let mut c = c0[..pos].to_vec();
+                            if l < 24 {
+                                c.push(0x40 + l as u8);
+                            } else {
+                                c.push(0x58);
+                                c.push(l as u8);
+                            }
+                            c.extend_from_slice(&needle[..l]);
+                            c.extend_from_slice(&c0[pos + pat.len()..]);
+                            let d = || json!({"field": field, "commitment_len": l, "cbor_len": c.len()});
+                            let ok = call(ctx, &format!("serde_cbor::from_slice::<Pset>[{}-length]", field), c.len(), &d, || serde_cbor::from_slice::<Pset>(&c).is_ok());
+                            // a byte string that is not 33 bytes long cannot be a commitment: acceptance
+                            // means bytes beyond the string were read (inside the buffer, where no
+                            // red-zone tool can see it)
+                            if ok == Some(true) {
+                                ctx.violation(&format!("binary-serde-commitment-of-wrong-length-accepted/pset.{}", field), d());
+                            } else {
+                                ctx.count("binary-serde-commitment-of-wrong-length-rejected");
+                            }
+                        }
+                        ctx.count("cbor-pset-commitment-field-located");
+                    } else {
+                        ctx.count("cbor-pset-commitment-field-not-located");
+                    }
+                }
             }
             ctx.shape(("serde", k % 2));
         });
